@@ -65,10 +65,18 @@ def run(ctx):
             else:
                 # stability under dict and file round trips
                 import nir
-                for how in ("dict", "file"):
+                for how in ("dict", "file", "dict-in-context"):
                     try:
-                        g = nir.NIRGraph(nodes={"n": node}, edges=[])
-                        g2 = nir.NIRGraph.from_dict(g.to_dict()) if how == "dict" else file_roundtrip(g)
+                        if how == "dict-in-context":
+                            # the node inside a graph whose neighbours have other shapes and an open Output:
+                            # a round trip must not re-type it from its surroundings
+                            other = np.array([7, 1, 2][: max(1, len(want_in) % 3 + 1)])
+                            g = nir.NIRGraph(nodes={"i": nir.Input(other), "n": node, "o": nir.Output(None)},
+                                             edges=[("i", "n"), ("n", "o")])
+                            g2 = nir.NIRGraph.from_dict(g.to_dict())
+                        else:
+                            g = nir.NIRGraph(nodes={"n": node}, edges=[])
+                            g2 = nir.NIRGraph.from_dict(g.to_dict()) if how == "dict" else file_roundtrip(g)
                         n2 = g2.nodes["n"]
                         e1 = check_type_dict(n2.input_type, "input", want_in)
                         e2 = check_type_dict(n2.output_type, "output", want_out)
